@@ -120,6 +120,7 @@ func (p *PauseController) Wait() (PauseWaitAction, string) {
 	default:
 		select {
 		case <-pauseChannel:
+			verifYield("wait_released", p)
 			switch p.GetState() {
 			case PauseStateStopped:
 				return PauseWaitActionStopped, p.GetStopMessage()
